@@ -93,5 +93,7 @@ where
         }
     }
 
-    (colored, max_color + 1)
+    // colours 0..=max_color are in use - unless no node was coloured at all
+    let color_count = if colored.is_empty() { 0 } else { max_color + 1 };
+    (colored, color_count)
 }
